@@ -8,6 +8,10 @@ PN0 == {}
 VN1 == {"a"}
 PN == {"p", "q"}
 VN == {"a", "i"}
+\* simulation: names that differ only in letter case are different names
+VNc == {"a", "i", "A"}
+PNc == {"p", "q", "P"}
+TNc == {"vec", "mat", "Vec"}
 NoFaults == {}
 BuildFaults == {"UndefinedType", "NotAType", "RedeclarationAsType", "RedeclarationAsProcedure", "RedeclarationAsParameter",
                 "RedeclarationAsVariable", "MustBeAReferenceParameter", "MainIsMissing", "MainIsNotAProcedure", "MainMustNotHaveParameters"}
@@ -16,6 +20,7 @@ SemFaults == {"AssignmentHasDifferentTypes", "AssignmentRequiresIntegers", "IfCo
               "TooManyArguments", "OperatorDifferentTypes", "ComparisonNonInteger", "ArithmeticOperatorNonInteger", "UndefinedVariable",
               "NotAVariable", "IndexingNonArray", "IndexingWithNonInteger"}
 AllFaults == BuildFaults \cup SemFaults
+ArgFaults == {"ArgumentsTypeMismatch"}
 
 Compact(x) == IF x.t = "tok" THEN "t " \o x.k \o " " \o x.s \o (IF x.k = "Ident" THEN "|" \o x.b \o "|" \o x.r ELSE "")
               ELSE IF x.t = "open" THEN "o " \o x.k \o " " \o x.s ELSE "c"
